@@ -1435,6 +1435,43 @@ pub fn dup_case(seed: u64, idx: usize, nsteps: usize) -> Case {
         let k = 1 + r.below(us.len() - 1);
         if r.chance(1, 2) { orig[..us[k]].to_string() } else { orig[us[k]..].to_string() }
     };
+    if idx % 2 == 1 {
+        // THREE or four files declare the same units (primary and secondary): the copies sit below 12-30 lines of padding
+        // so that their positions lie beyond the end of every shrunk file. Each file in turn (whichever holds the FIRST
+        // unit depends on the order of insertion) is shrunk to a few lines, emptied and restored, twice around.
+        let ncopies = 2 + r.below(2);
+        let mut names = vec![orig_name.clone()];
+        let mut texts = vec![orig.clone()];
+        for k in 0..ncopies {
+            let n = format!("dup{k}_{}", orig_name.replace('/', "_"));
+            let pad = "-- padding\n".repeat(12 + 9 * k + r.below(5));
+            let t = format!("{pad}{}", if k == 1 && us.len() >= 2 { orig[us[1]..].to_string() } else { orig.clone() });
+            files.push((n.clone(), t.clone()));
+            libs[0].1.push(n.clone());
+            names.push(n);
+            texts.push(t);
+        }
+        let mut edits: Vec<Edit> = vec![];
+        let start = r.below(names.len());
+        for round in 0..2 {
+            for j in 0..names.len() {
+                let i = (start + j) % names.len();
+                let (n, t) = (&names[i], &texts[i]);
+                // keep only the first 3 lines (round 0) / delete the first 2/3 of the lines (round 1)
+                let nlines = t.matches('\n').count() as u32;
+                if round == 0 {
+                    edits.push(Edit { file: n.clone(), range: Some([3.min(nlines), 0, u32::MAX, 0]), text: String::new(), kind: "dup-shrink".into() });
+                } else {
+                    edits.push(Edit { file: n.clone(), range: Some([0, 0, nlines * 2 / 3, 0]), text: String::new(), kind: "dup-shrink-front".into() });
+                }
+                edits.push(Edit { file: n.clone(), range: None, text: String::new(), kind: "dup-empty".into() });
+                edits.push(Edit { file: n.clone(), range: None, text: t.clone(), kind: "dup-restore".into() });
+            }
+        }
+        let cur: Vec<(String, String)> = files.clone();
+        edits.extend(gen_history(&mut r, &cur, nsteps / 2, &names));
+        return Case { id: format!("d{seed}-{idx}"), family: "dups".into(), std_mode: "std".into(), libs, files, edits, cursors: vec![] };
+    }
     let dup_name = format!("dup_{}", orig_name.replace('/', "_"));
     files.push((dup_name.clone(), copy.clone()));
     libs[0].1.push(dup_name.clone());
